@@ -117,7 +117,10 @@ inductive Event (α : Type) where
   /-- the `k`-th merge in flight ends -/
   | mergeEnd (k : Nat)
   /-- first sub-step of `add_document` / `delete_query` / `run` on a producer thread: the stamps
-  are drawn (and the deletes of a batch queued); the pause points of `tantivy::verif` sit here -/
+  are drawn (and the deletes of a batch queued); the pause points of `tantivy::verif` sit here.
+  (These calls take `&self`; `commit`, `prepare_commit` and `rollback` take `&mut self`, so in
+  safe Rust they cannot fall between the two sub-steps of a call - the state machine allows it,
+  the statements about sub-steps do not rely on it.) -/
   | stamp (op : Op α)
   /-- second sub-step: the `k`-th stamped operation is published (adds sent to the channel, the
   delete pushed to the queue) -/
@@ -390,7 +393,6 @@ def step (s : WState α) : Event α → Option (WState α × Nat)
       some ({ s with pendingPubs := s.pendingPubs.eraseIdx k, log := s.log ++ [d] }, 0)
 
 /-- run an event sequence; `none` if some event was not enabled -/
-
 def run (s : WState α) : List (Event α) → Option (WState α)
   | [] => some s
   | e :: es => match step s e with
